@@ -324,3 +324,61 @@ Theorem C09_source_read_loop : forall cut c lo hi reads,
   = (Z.of_nat (length (filter (fun r => on_contig c r && counted cut r) reads)),
      bases_count cut c lo hi reads).
 Proof. exact Proofs.FnCoverageLoop.source_read_loop. Qed.
+
+(* ---- source tie: bedcov's samtools command line ("cmd = [bed_fname, bam_fname]", "if min_mapq and min_mapq > 0:
+   cmd.extend(["-Q", str(min_mapq)])"), translated from the Python source on every run (Gen/FnCoverageCmd.v
+   fn_bedcov_cmd): the -Q option is absent exactly when the model's pileup_cut is samtools' default 0, and otherwise
+   names pileup_cut min_mapq *)
+From CNV Require Model.Decimal Gen.FnCoverageCmd Proofs.FnCoverageCmd.
+
+Theorem C09_source_bedcov_cmd : forall bed bam cut,
+  Gen.FnCoverageCmd.fn_bedcov_cmd bed bam cut = Proofs.FnCoverageCmd.cmd_for_cut bed bam (pileup_cut cut).
+Proof. exact Proofs.FnCoverageCmd.source_bedcov_cmd. Qed.
+
+Theorem C09_source_bedcov_cmd_cases : forall bed bam cut,
+  (0 < cut -> Gen.FnCoverageCmd.fn_bedcov_cmd bed bam cut = [bed; bam; "-Q"%string; Model.Decimal.print_Z cut] /\ pileup_cut cut = cut) /\
+  (cut <= 0 -> Gen.FnCoverageCmd.fn_bedcov_cmd bed bam cut = [bed; bam] /\ pileup_cut cut = 0).
+Proof. exact Proofs.FnCoverageCmd.source_bedcov_cmd_cases. Qed.
+
+(* ---- source tie: detect_bedcov_columns, the WHOLE function, translated from the Python source on every run
+   (Gen/FnCoverageDetect.v fn_detect_cols: the column names as a function of the first line, its tab count and the filler
+   names).  With the model's tab count and filler names it is the model's detect_bedcov_columns on every text with a line
+   end and at least 3 tabs in its first line; below 3 tabs the model reports the RuntimeError the translation records as
+   a guard *)
+From CNV Require Gen.FnCoverageDetect Proofs.FnCoverageDetect.
+
+Theorem C09_source_detect_columns : forall (text first : list ascii),
+  before_char EOLC text = Some first ->
+  3 <= count_char TABC first ->
+  detect_bedcov_columns text
+  = DetectCols (Gen.FnCoverageDetect.fn_detect_cols (unchars first) (count_char TABC first)
+                                                    (filler_names (count_char TABC first))).
+Proof. exact Proofs.FnCoverageDetect.source_detect_columns. Qed.
+
+Theorem C09_source_detect_bad_line : forall (text first : list ascii),
+  before_char EOLC text = Some first ->
+  count_char TABC first < 3 ->
+  detect_bedcov_columns text = DetectBadLine.
+Proof. exact Proofs.FnCoverageDetect.source_detect_bad_line. Qed.
+
+(* ---- source tie: interval_coverages_pileup's per-row depth / log2 code ("spans = table.end - table.start; ok_idx = spans > 0;
+   table = table.assign(depth=0.0, log2=NULL_LOG2_COVERAGE); table.loc[ok_idx, 'depth'] = basecount / spans; ok_idx =
+   table['depth'] > 0; table.loc[ok_idx, 'log2'] = np.log2(depth)"), translated from the Python source on every run
+   (Gen/FnCoveragePileup.v fn_pileup_row): the depth is the model's pileup_depth (exactly 0 on a zero-width or reversed bin,
+   basecount / span otherwise) and the log2 is the model's pileup_log2 of the code's own depth *)
+From CNV Require Gen.FnCoveragePileup Proofs.FnCoveragePileup.
+
+Theorem C09_source_pileup_depth : forall (log2o : Q -> Q) (bases lo hi : Z),
+  (Proofs.FnCoveragePileup.fn_pileup_depth log2o bases lo hi == pileup_depth bases lo hi)%Q /\
+  (lo < hi -> Proofs.FnCoveragePileup.fn_pileup_depth log2o bases lo hi = (inject_Z bases / inject_Z (hi - lo))%Q) /\
+  (hi <= lo -> Proofs.FnCoveragePileup.fn_pileup_depth log2o bases lo hi = 0%Q).
+Proof.
+  intros log2o bases lo hi.
+  exact (conj (Proofs.FnCoveragePileup.source_pileup_depth log2o bases lo hi)
+              (Proofs.FnCoveragePileup.source_pileup_depth_cases log2o bases lo hi)).
+Qed.
+
+Theorem C09_source_pileup_log2 : forall (log2o : Q -> Q) (bases lo hi : Z),
+  snd (Gen.FnCoveragePileup.fn_pileup_row log2o hi lo bases (-20 # 1)%Q)
+  = pileup_log2 log2o (Proofs.FnCoveragePileup.fn_pileup_depth log2o bases lo hi).
+Proof. exact Proofs.FnCoveragePileup.source_pileup_log2. Qed.
